@@ -103,6 +103,8 @@ struct DynMaker {
     template<typename V> static void noalias(V& v) { v.noalias(); }
     template<typename TT, size_t R> static auto make(TT& A, const std::vector<Tri>& r, std::integral_constant<size_t,R> rk)
         -> decltype(mkview(A, r, rk)) { return mkview(A, r, rk); }
+    template<typename TT, size_t R> static auto src(TT& A, const std::vector<Tri>& r, std::integral_constant<size_t,R> rk)
+        -> decltype(mkview(A, r, rk)) { return mkview(A, r, rk); }
 };
 // ... or from compile-time fseq<F,L,S> (fixed view classes; the script must carry the same triples)
 template<typename... FS> struct FixMaker {
@@ -116,8 +118,44 @@ template<typename... FS> struct FixMaker {
             if (r[k][0] != want[k] || r[k][1] != want[R + k] || r[k][2] != want[2 * R + k]) { std::printf(" | ORACLE=FAIL script-does-not-match-fseq\n"); std::fflush(stdout); _exit(0); }
         return A(FS{}...);
     }
+    template<typename TT, size_t R> static auto src(TT& A, const std::vector<Tri>& r, std::integral_constant<size_t,R> rk)
+        -> decltype(mkview(A, r, rk)) { return mkview(A, r, rk); }
 };
 
+// ... or the same two through a TensorMap over the storage of A (TensorMap parents always get the generic n-D view
+// classes TensorViewExpr<TensorMap<…>,R> / TensorFixedViewExprnD<TensorMap<…>,…>, whatever the rank)
+template<typename TT> struct map_of;
+template<typename T, size_t... D> struct map_of<Fastor::Tensor<T,D...>> { using type = Fastor::TensorMap<T,D...>; };
+template<typename TT> inline typename map_of<TT>::type& the_map(TT& A) {
+    using TM = typename map_of<TT>::type;
+    static std::unique_ptr<TM> mp;
+    if (!mp || mp->data() != A.data()) mp.reset(new TM(A.data()));
+    return *mp;
+}
+struct MapDynMaker {
+    static const char* cls() { return "mapdyn"; }
+    static bool is_diag() { return false; }
+    template<typename V> static void noalias(V& v) { v.noalias(); }
+    template<typename TT, size_t R> static auto make(TT& A, const std::vector<Tri>& r, std::integral_constant<size_t,R> rk)
+        -> decltype(mkview(the_map(A), r, rk)) { return mkview(the_map(A), r, rk); }
+    template<typename TT, size_t R> static auto src(TT& A, const std::vector<Tri>& r, std::integral_constant<size_t,R> rk)
+        -> decltype(mkview(the_map(A), r, rk)) { return mkview(the_map(A), r, rk); }
+};
+template<typename... FS> struct MapFixMaker {
+    static const char* cls() { return "mapfix"; }
+    static bool is_diag() { return false; }
+    template<typename V> static void noalias(V& v) { v.noalias(); }
+    template<typename TT, size_t R> static auto make(TT& A, const std::vector<Tri>& r, std::integral_constant<size_t,R>)
+        -> decltype(the_map(A)(FS{}...)) {
+        const int want[] = {FS::_first..., FS::_last..., FS::_step...};
+        for (size_t k = 0; k < R; ++k)
+            if (r[k][0] != want[k] || r[k][1] != want[R + k] || r[k][2] != want[2 * R + k]) { std::printf(" | ORACLE=FAIL script-does-not-match-fseq\n"); std::fflush(stdout); _exit(0); }
+        return the_map(A)(FS{}...);
+    }
+    // aliased right-hand sides: slices of the OWNING tensor (a map of the storage of another Tensor)
+    template<typename TT, size_t R> static auto src(TT& A, const std::vector<Tri>& r, std::integral_constant<size_t,R> rk)
+        -> decltype(mkview(A, r, rk)) { return mkview(A, r, rk); }
+};
 // ... or the writable diagonal view diag(A) of a square matrix (the script's destination ranges are ignored)
 struct DiagMaker {
     static const char* cls() { return "diag"; }
@@ -126,6 +164,8 @@ struct DiagMaker {
     template<typename V> static void noalias(V&) {}
     template<typename TT, size_t R> static auto make(TT& A, const std::vector<Tri>&, std::integral_constant<size_t,R>)
         -> decltype(Fastor::diag(A)) { return Fastor::diag(A); }
+    template<typename TT, size_t R> static auto src(TT& A, const std::vector<Tri>& r, std::integral_constant<size_t,R> rk)
+        -> decltype(mkview(A, r, rk)) { return mkview(A, r, rk); }
 };
 } // namespace vw
 #define VW_UNPACK(...) __VA_ARGS__
